@@ -153,7 +153,7 @@ PROPS['C24'] = dict(
 
 PROPS['C28'] = dict(
     units=['k_log'], level='proof', design_ref='6/C28',
-    technique='CBMC harness contracts on Logger::is_loggable, Logger::send, Logger::enqueue, Logger::operator(), Logger::flush and the numbering statement of Logger::process_logline extracted from the clang AST; the lock-free queue is an assumed model whose try_push '
+    technique='CBMC harness contracts on Logger::is_loggable, Logger::send, Logger::enqueue, Logger::operator(), Logger::flush and the numbering statement and the output step of Logger::process_logline extracted from the clang AST; the lock-free queue is an assumed model whose try_push '
               'nondeterministically accepts or refuses',
     text='Sequential conjuncts only: proof for every level mask, level, line and queue answer that a line at a disabled level is never submitted (and send reports success), a line at an '
          'enabled level is submitted exactly once with its text, level and value, and send/enqueue return true exactly when the queue accepted the line (the obligation that failed before fix '
@@ -164,8 +164,10 @@ PROPS['C28'] = dict(
          'exactly once, in buffer order, under one hold of the logger mutex, and the buffer is empty afterwards (so a second flush writes nothing twice). The numbering statement of '
          'Logger::process_logline (`case sequence:`; the innermost statement that increments _sequence, selected from the AST on every run -- the rest of process_logline is formatting and '
          'is NOT extracted): exactly one number is written per line, exactly one counter advances by one, the number written is the successor of the previous line of the same counter, '
-         'and a logger that does not separate directions numbers all lines from one counter. NOT decided: conjuncts about producer interleavings (exactly once / per-producer order '
-         'under 1-8 concurrent producers: the queue itself, C30), the formatting part of process_logline and its unbuffered write path, that stop() joins the thread.',
+         'and a logger that does not separate directions numbers all lines from one counter. The output step of process_logline (the `if (_flags & buffer) ... else ...` that ends it, selected '
+         'from the AST the same way; strings are identities): a buffering logger appends the line to its buffer exactly once and writes nothing, a direct logger inserts the line into the '
+         'stream exactly once, under the logger mutex, which is released afterwards. NOT decided: conjuncts about producer interleavings (exactly once / per-producer order '
+         'under 1-8 concurrent producers: the queue itself, C30), the formatting part of process_logline (the loop over positions), that the buffer append itself is not under the mutex flush() holds (a data race if flush() is called from another thread -- schedules), that stop() joins the thread.',
     note='producer interleavings are outside sequential contracts; the consumer is verified against an environment that may act between any two of its steps; queue, LogElement constructor, thread id are ASSUMED models',
     trusted_base=COMMON_TRUST,
     explanation='The ghost log of the queue model records each try_push call and its answer, so "submitted exactly once" and "reports success iff accepted" are postconditions over that log.',
